@@ -149,6 +149,10 @@ def plot_params_1d(input_fits, parameter, output_dir=None,
         # Get filtered and sorted table of parameters
         tsorted = info.filter_table(t, additional=additional)
 
+        from .utils import verif_hook
+        if verif_hook.enabled():
+            verif_hook.record('plot_params_1d', source=info.source.name, model_name=list(info.model_name), table=tsorted)
+
         # Compute histogram
         if log_x:
             hist, _ = np.histogram(np.log10(tsorted[parameter]), bins=bins, range=[np.log10(pmin), np.log10(pmax)])
